@@ -53,6 +53,10 @@ CLAIMED = {
         text="Lean theorems: data_aligned (entry [t][m] of the array handed to the likelihood is row t of the column named by measurement m, any M, T, column order; with the reshape-only variant refuted at M=T=2); the likelihood is -(sum over trajectories, measurements, time points of |data - sim_n|^p)^(1/p) with sim_n run from trajectory n's own initial state, time points and (evaluation parameters overridden by its own condition only) (logLikelihood_formula); symmetric in the trajectories and in the (species, column) pairs (List.Perm); cost_history_free: when the defaults cover every parameter the working parameter vector, hence the cost, is independent of what earlier evaluations left in the shared array; -inf outside the prior's support. Tie: LL_data compared exactly, cost compared with the Lean model fed with the implementation's own simulations of the parameter vectors the model requests; oracle = the stated formula with fresh simulations, history and permutation checks on the real cost_function.",
         note=NOTE_COMMON + "LSODA is a parameter of the model (C04); pandas column lookup and numpy transpose/reshape are modelled by index functions; stochastic cost only through the shared code paths.",
         technique="Lean 4 proof (index arithmetic, permutation invariance, history-freeness) + correspondence + formula oracle", ref="DESIGN.md §4 C15"),
+    "C18": dict(
+        text="Lean theorems over any linearly ordered field: the fourth-order central stencil is exact on quartics (derivative c1), central on quadratics, forward/backward on linear functions, with their classical leading error terms on the next monomial (-4h^4 = h^4/30*5!, h^2, +-h) and linearity (so exactness extends to all polynomials of the scheme's order); J[i][j] differentiates equation i in state j, Z[i] equation i in the named parameter; hence exact Jacobians for rate equations that are quartic per coordinate (all mass action of order <= 4); the parameter writes of compute_Zj end with the original values for all four schemes and any number of equations. Tie: py_get_jacobian / py_get_sensitivity_to_parameter vs the Lean stencils on the Lean derivative (2e-10) and vs sympy-differentiated rate equations within the scheme's bound; parameter dictionary before/after.",
+        note=NOTE_COMMON + "partial: general C^k error bounds via Taylor's theorem are not formalised (the oracle evaluates the derivative bound numerically); np.round to 10 decimals is not modelled.",
+        technique="Lean 4 proof (stencil algebra by field_simp/ring; write-trace induction) + correspondence + symbolic-derivative oracle", ref="DESIGN.md §4 C18"),
 }
 PENDING = {}
 def main():
